@@ -169,3 +169,83 @@ func (f *F) String(name func(int) string) string {
 	sort.Strings(ps)
 	return "(" + strings.Join(ps, " || ") + ")"
 }
+
+// Subst replaces atom a by the constant v and folds constants.
+func (f *F) Subst(a int, v bool) *F {
+	switch f.Op {
+	case 'c':
+		return f
+	case 'a':
+		if f.Atom == a {
+			if v {
+				return True
+			}
+			return False
+		}
+		return f
+	case '!':
+		return Not(f.Kids[0].Subst(a, v))
+	case '&':
+		ks := make([]*F, len(f.Kids))
+		for i, k := range f.Kids {
+			ks[i] = k.Subst(a, v)
+		}
+		return And(ks...)
+	case '|':
+		ks := make([]*F, len(f.Kids))
+		for i, k := range f.Kids {
+			ks[i] = k.Subst(a, v)
+		}
+		return Or(ks...)
+	}
+	return f
+}
+
+// Equivalent decides f ≡ g by truth table (false if more than 16 atoms are involved).
+func Equivalent(f, g *F) bool {
+	m := map[int]bool{}
+	f.Atoms(m)
+	g.Atoms(m)
+	if len(m) > 16 {
+		return false
+	}
+	atoms := make([]int, 0, len(m))
+	for a := range m {
+		atoms = append(atoms, a)
+	}
+	sort.Ints(atoms)
+	pos := map[int]int{}
+	for i, a := range atoms {
+		pos[a] = i
+	}
+	for x := uint32(0); x < 1<<uint(len(atoms)); x++ {
+		val := func(a int) int8 {
+			if x>>uint(pos[a])&1 == 1 {
+				return vT
+			}
+			return vF
+		}
+		if f.Eval3(val) != g.Eval3(val) {
+			return false
+		}
+	}
+	return true
+}
+
+// DropInessential removes atoms the value of f does not depend on.
+func DropInessential(f *F) *F {
+	m := map[int]bool{}
+	f.Atoms(m)
+	atoms := make([]int, 0, len(m))
+	for a := range m {
+		atoms = append(atoms, a)
+	}
+	sort.Ints(atoms)
+	for _, a := range atoms {
+		t, e := f.Subst(a, true), f.Subst(a, false)
+		if Equivalent(t, e) {
+			f = t
+		}
+	}
+	return f
+}
